@@ -12,6 +12,7 @@ structure SrcCfg where
   blocking : Bool := true
   pol : Pol := .fa
   nout : Nat := 1
+  setup : Nat := 0               -- node_setup_time (the constructor does not take it: assigned to the attribute before the run)
   deriving Repr, Inhabited, DecidableEq
 
 inductive SrcPc where
@@ -91,8 +92,8 @@ def behaviour (s : SrcState) (t : Nat) (a : Ans) : SrcState × List Call :=
     match s.cfg.pol with
     | .const k =>
       if k < 0 ∨ k ≥ s.cfg.nout then s.crash .assertion []
-      else ({ s with clock := s.clock.update 0 t, pc := .setupWait }, [.wait 0])
-    | _ => ({ s with clock := s.clock.update 0 t, pc := .setupWait }, [.wait 0])
+      else ({ s with clock := s.clock.update 0 t, pc := .setupWait }, [.wait s.cfg.setup])
+    | _ => ({ s with clock := s.clock.update 0 t, pc := .setupWait }, [.wait s.cfg.setup])
   | .setupWait =>
     let s1 := { s with clock := s.clock.update 1 t }
     s1.loopTop t a
